@@ -1,6 +1,6 @@
-SPECIFICATION SpecD
+SPECIFICATION Spec
 CONSTANTS N = 3
-  Walker = "resolve"
+  Walkers = {"resolve", "xref", "filters"}
   MaxDepth = 4
   MaxChain = 3
   StackCap = 12
@@ -10,4 +10,5 @@ CONSTANTS N = 3
   G_STMFIRST = TRUE
   G_CHAIN = TRUE
 INVARIANTS NoOverflow WorkBounded ChainBounded
-CHECK_DEADLOCK TRUE
+PROPERTY Termination
+CHECK_DEADLOCK FALSE
